@@ -1217,6 +1217,9 @@ htp_status_t htp_connp_RES_FINALIZE(htp_connp_t *connp) {
     if (htp_treat_response_line_as_body(data, bytes_left)) {
         // Interpret remaining bytes as body data
         htp_log(connp, HTP_LOG_MARK, HTP_LOG_WARNING, 0, "Unexpected response body");
+#ifdef LIBHTP_VERIF
+        htp_verif_site(HTP_VERIF_SITE_RES_FINALIZE_AS_BODY, connp, (long) bytes_left, 0);
+#endif
         htp_status_t rc = htp_tx_res_process_body_data_ex(connp->out_tx, data, bytes_left);
         htp_connp_res_clear_buffer(connp);
         return rc;
